@@ -10,7 +10,9 @@ using namespace vh;
 
 static const uint64_t TAPE[5] = {0x0123456789abcdefULL, 0xfedcba9876543210ULL, 0, ~0ULL, 0x5555aaaa5555aaaaULL};
 
-// op kinds: 0 encrypt, 1 decrypt good, 2 decrypt forged, 3 set_counter, 4 set_nonce(len), 5 reinit / re-key
+// op kinds: 0 encrypt, 1 decrypt good, 2 decrypt forged, 3 set_counter, 4 set_nonce(len), 5 reinit / re-key,
+// C sessions only: 6 re-key through reinit(state, state->nonce, newkey) (the nonce bytes passed are the session's own),
+// 7 reinit(state, NULL, key) (documented: nonce becomes zero), 8 reinit(state, nonce, NULL) (documented: key becomes zero)
 struct NOp { int kind; Bytes ad, pt; uint64_t n; Bytes nonce; };
 static std::string enc_ops(const std::vector<NOp> &v) {
     std::string s;
@@ -37,7 +39,7 @@ static std::vector<NOp> dec_ops(const std::string &s) {
 
 static rc::Gen<KV> gen_c14() {
     auto counter = rc::gen::oneOf(rc::gen::element<uint64_t>(0, 1, 0xff, 0xffff, 0xffffffffULL, 0xffffffffffffffffULL, 0xfffffffffffffffeULL, 0x0102030405060708ULL), rc::gen::arbitrary<uint64_t>());
-    auto op = rc::gen::map(rc::gen::tuple(rc::gen::weightedElement<int>({{5, 0}, {3, 1}, {3, 2}, {1, 3}, {2, 4}, {1, 5}}), genBytes(20), genBytes(40), counter, genBytes(40)),
+    auto op = rc::gen::map(rc::gen::tuple(rc::gen::weightedElement<int>({{10, 0}, {6, 1}, {6, 2}, {2, 3}, {4, 4}, {2, 5}, {2, 6}, {1, 7}, {1, 8}}), genBytes(20), genBytes(40), counter, genBytes(40)),
                            [](std::tuple<int, Bytes, Bytes, uint64_t, Bytes> t) { NOp o; o.kind = std::get<0>(t); o.ad = std::get<1>(t); o.pt = std::get<2>(t); o.n = std::get<3>(t); o.nonce = std::get<4>(t); return o; });
     return rc::gen::mapcat(rc::gen::tuple(inRangeFull(0, 15), inRangeFull(0, 17)), [op](std::tuple<int, int> h) {
         int type = std::get<0>(h), ffs = std::get<1>(h);
@@ -60,6 +62,7 @@ static bool classify_c14(const KV &c, std::vector<std::string> &tags) {
         if (o.kind <= 1) { ++packets; if (failed) failed_then_packet = true; }
         if (o.kind == 2) failed = true;
         if (o.kind == 4 && o.nonce.size() != 16) odd_nonce = true;
+        if (o.kind >= 6 && type < 3) tags.push_back(o.kind == 6 ? "re-key-with-own-nonce" : o.kind == 7 ? "reinit-null-nonce" : "reinit-null-key");
     }
     static const char *T[5] = {"C-incremental", "C++aead", "C++masked", "C++siv", "C++isap"};
     tags.push_back(std::string("type=") + T[type < 3 ? 0 : 1 + (type - 3) / 3]);
@@ -80,7 +83,7 @@ static Bytes oneshot(int fam, int alg, const Bytes &key, const Bytes &nonce, con
 }
 
 template <class A>
-static std::string run_c_session(int alg, const Bytes &key, Bytes model, const std::vector<NOp> &ops) {
+static std::string run_c_session(int alg, Bytes key, Bytes model, const std::vector<NOp> &ops) {
     typename A::state_t *s = (typename A::state_t *)xalloc(sizeof(typename A::state_t));
     memset(s, 0xA5, sizeof(*s));
     Buf k(key);
@@ -109,7 +112,10 @@ static std::string run_c_session(int alg, const Bytes &key, Bytes model, const s
             break; }
         case 3: ascon_aead_set_counter(s->nonce, o.n); memset(model.data(), 0, 8); for (int i = 0; i < 8; ++i) model[8 + i] = (uint8_t)(o.n >> (56 - 8 * i)); break;
         case 4: { Bytes n = o.nonce; n.resize(16, 0); memcpy(s->nonce, n.data(), 16); model = n; break; }  // the public field may be set directly
-        case 5: { Bytes n = o.nonce; n.resize(16, 0x11); Buf nb(n); A::reinit(s, nb.p, k.p); model = n; break; }
+        case 5: { Bytes n = o.nonce; n.resize(16, 0x11); Buf nb(n); Buf kk(key); A::reinit(s, nb.p, kk.p); model = n; break; }
+        case 6: { for (size_t i = 0; i < key.size(); ++i) key[i] ^= (uint8_t)(o.n >> (8 * (i % 8))); key[0] ^= 1; Buf kk(key); A::reinit(s, s->nonce, kk.p); break; }   // nonce argument = current nonce: the session continues
+        case 7: { Buf kk(key); A::reinit(s, nullptr, kk.p); model.assign(16, 0); break; }
+        case 8: { Bytes n = o.nonce; n.resize(16, 0x22); Buf nb(n); A::reinit(s, nb.p, nullptr); model = n; key.assign(key.size(), 0); break; }
         }
         if (err.empty() && memcmp(s->nonce, model.data(), 16) != 0) err = at + "public nonce field is " + hex(s->nonce, 16) + " want " + hex(model);
         if (!err.empty()) break;
